@@ -200,7 +200,13 @@ def asserted(solver_obj):
     s = solver_obj._solver
     if isinstance(s, ghost.GhostSolver):
         return s.stack()
-    return list(s.assertions())
+    out = []
+    for f in s.assertions():
+        # debug mode: z3 shows assert_and_track(f, p) as Implies(p, f)
+        if z3.is_implies(f) and z3.is_const(f.arg(0)) and f.arg(0).decl().name().startswith("asst_"):
+            f = f.arg(1)
+        out.append(f)
+    return out
 
 
 def assertions_of(obj):
